@@ -144,6 +144,13 @@ class Assembler:
         while c["k"] == "Unary" and c["op"] == "!":
             neg = not neg
             c = c["expr"]
+        if c["k"] == "Field" and c["base"]["k"] == "Path" and "::" not in c["base"]["path"]:
+            # a flag that travels as a field of a small struct built at the call site (`parts.commands`)
+            name = binding.get(f"{c['base']['path']}.{c['member']}")
+            if name in flags:
+                return flags[name] != neg
+            if name in ("true", "false"):
+                return (name == "true") != neg
         if c["k"] == "Path" and "::" not in c["path"]:
             name = binding.get(c["path"], c["path"])
             if name in flags:
@@ -196,6 +203,26 @@ class Assembler:
                         nb[p["name"]] = binding.get(a["path"], a["path"])
                     elif a["k"] == "Lit" and a.get("lit") == "bool":
                         nb[p["name"]] = "true" if a["v"] else "false"
+                    # flags bundled in a struct: the literal given directly, or bound to a local of the caller just for this call
+                    lit = a if a["k"] == "Struct" else None
+                    if lit is None and a["k"] == "Path" and "::" not in a["path"]:
+                        inits = [x["init"] for x in A.walk(fn.body) if x["k"] == "Local" and x["pat"].get("k") == "PIdent" and x["pat"]["name"] == a["path"] and x.get("init") is not None]
+                        if len(inits) == 1 and inits[0]["k"] == "Struct":
+                            lit = inits[0]
+                    if lit is not None:
+                        for fi in lit["fields"]:
+                            v = fi["expr"]
+                            if v["k"] == "Path" and "::" not in v["path"]:
+                                nb[f"{p['name']}.{fi['name']}"] = binding.get(v["path"], v["path"])
+                            elif v["k"] == "Lit" and v.get("lit") == "bool":
+                                nb[f"{p['name']}.{fi['name']}"] = "true" if v["v"] else "false"
+                # .. and taken apart again in the callee: `let Parts { commands, star } = parts;`
+                for x in A.walk(callee.body):
+                    if x["k"] == "Local" and x["pat"].get("k") == "PStruct" and x.get("init") is not None and x["init"]["k"] == "Path":
+                        for fl_ in x["pat"]["fields"]:
+                            src = nb.get(f"{x['init']['path']}.{fl_['name']}")
+                            if src is not None and fl_["pat"].get("k") == "PIdent":
+                                nb[fl_["pat"]["name"]] = src
                 self._render(self.tree(callee), callee, flags, nb, out, depth + 1)
             elif n.kind == "opaque":
                 out.append((L + "OPAQUE" + R, fn.qname, n.node["l"]))
